@@ -214,8 +214,22 @@ def bound_sweep_cases(max_n):
     return out
 
 
+def huge_weight_cases():
+    """weights far above the machine word (2^63 .. 2^70 and a carry chain that climbs past them): the level
+    bookkeeping must be relative to the operands, not to a fixed constant; oracle only"""
+    h = ac.bare_host(5)
+    i = h['inputs']
+    out = []
+    for kind in ('weighted', 'naive'):
+        for basis in (['enum', 'XAIG'], ['enum', 'AIG']):
+            out.append({'host': h, 'k0': 1, 'call': [kind, basis, [[0, i[0]], [0, i[1]], [2 ** 70, i[2]]]]})
+            out.append({'host': h, 'k0': 1, 'call': [kind, basis, [[2 ** 63 - 2, i[0]], [2 ** 63 - 2, i[1]], [2 ** 63 - 1, i[2]],
+                                                                     [2 ** 63 - 1, i[3]], [2 ** 63, i[4]]]]})
+    return out
+
+
 def oracle_cases(ctx, corr):
-    return list(getattr(corr, '_cases', [])) + bound_sweep_cases(ctx.n(40, 64))
+    return huge_weight_cases() + list(getattr(corr, '_cases', [])) + bound_sweep_cases(ctx.n(40, 64))
 
 
 def oracle(case):
